@@ -336,7 +336,20 @@ def def_features(node, src_lines):
         else:
             f.add("decorator:plain")
     first = node.body[0]
-    hdr_end = first.lineno - 1
+    # the header proper: from the def keyword to the line of the colon that closes the signature
+    depth, hdr_end = 0, node.lineno
+    try:
+        toks = tokenize.generate_tokens(io.StringIO("\n".join(src_lines[node.lineno - 1:first.lineno]) + "\n").readline)
+        for t in toks:
+            if t.type == tokenize.OP and t.string in "([{":
+                depth += 1
+            elif t.type == tokenize.OP and t.string in ")]}":
+                depth -= 1
+            elif t.type == tokenize.OP and t.string == ":" and depth == 0:
+                hdr_end = node.lineno + t.start[0] - 1
+                break
+    except (tokenize.TokenError, IndentationError, SyntaxError):
+        hdr_end = max(node.lineno, first.lineno - 1)
     if hdr_end - node.lineno >= 1:
         f.add("multiline-header")
     hdr = "\n".join(src_lines[node.lineno - 1:hdr_end])
@@ -672,6 +685,27 @@ def collect(ctx, n, _unused=0):
         items += r["items"]
         corr += r["corr"][:3]
     agg["raised_kinds"] = kinds
+    # input distribution: which features the generated modules carry (measured on the sources themselves)
+    dist = {"modules": len(cases), "lines": {}, "defs_per_module": {}, "features": {}, "config": {}}
+    for c in cases:
+        try:
+            tree = ast.parse(c["src"])
+        except SyntaxError:
+            continue
+        idx = def_index(tree)
+        lines = c["src"].split("\n")
+        b = "%d-%d" % (len(lines) // 20 * 20, len(lines) // 20 * 20 + 19)
+        dist["lines"][b] = dist["lines"].get(b, 0) + 1
+        k = str(sum(1 for n in idx.values() if not isinstance(n, ast.ClassDef)))
+        dist["defs_per_module"][k] = dist["defs_per_module"].get(k, 0) + 1
+        fs = set()
+        for n in idx.values():
+            fs |= def_features(n, lines)
+        for f in fs:
+            dist["features"][f] = dist["features"].get(f, 0) + 1
+        cfg = "%s/%s/%s" % (c["fmt"], "annotations" if c["type_annotations"] else "docstring-types", "nowrap" if c["no_word_wrap"] else "wrap")
+        dist["config"][cfg] = dist["config"].get(cfg, 0) + 1
+    agg["distribution"] = dist
     return agg, items, corr, cases
 
 
@@ -706,6 +740,7 @@ def run(ctx):
                 "annotations / in the docstring / nowhere, annotated and type-commented assignments, triple-quoted strings holding a fake "
                 "def, string return annotations) x target style x type_annotations x word-wrap; non-trivial = the file was rewritten",
         "completed": agg["ran"], "raised": agg["raised"], "raised_kinds": agg["raised_kinds"], "rewritten": agg["changed"],
+        "input_distribution": agg["distribution"],
         "headers_compared_with_model": agg["headers"], "model_disagreements": len(corr),
         "traces_validated_against_impl": agg["headers"],
         "samples": [{k: cases[4][k] for k in ("fmt", "type_annotations", "no_word_wrap")}, cases[4]["src"][:400]] if len(cases) > 4 else [],
